@@ -131,7 +131,7 @@ def bounded_checks(tier, seed):
         raise RuntimeError("bounded C14 sweep crashed: " + r.stderr[-1500:])
     d = json.loads(r.stdout.strip().splitlines()[-1])
     return [{"check": "file_trees", "tool": "generated file trees over two search paths; CPython's path-finder rules + pkgutil as oracle; os.walk / iterdir order permuted (asc, desc, shuffled); request by name and by path",
-             "bound": f"7x7 top-level layouts with fixed inner trees + {n_random} random layouts (11 inner entries incl. stubs, sub-packages, __pycache__, nested namespace dirs, data files, a module file next to a same-named package) x 3 listing orders; directed second-portion sub-packages; .pth additions against site.addsitedir; a package requested by path (str / Path) with no search path above it, 4 search-path configurations incl. a same-named package on a configured path",
+             "bound": f"7x7 top-level layouts with fixed inner trees + {n_random} random layouts (11 inner entries incl. stubs, sub-packages, __pycache__, nested namespace dirs, data files, a module file next to a same-named package) x 3 listing orders; 3 directed layouts with a sub-package and a module whose names start with two underscores; directed second-portion sub-packages; .pth additions against site.addsitedir; a package requested by path (str / Path) with no search path above it, 4 search-path configurations incl. a same-named package on a configured path",
              "cases": d["cases"], "failing": len(d["bad"]), "wall_s": round(time.time() - t0, 1), "class_match": True, "violations": d["bad"]}]
 
 
